@@ -19,7 +19,7 @@ Theorem C23_migration_preserves : forall cfg perm folder order,
   v1_load files <> [] ->
   covers perm (v1_load files) ->
   exists hydf st,
-    migrate cfg perm false folder PreNone =
+    migrate cfg perm WNoFault folder PreNone =
       (MS (if delete_old cfg then None else Some folder) (PreFile hydf), PSuccess) /\
     load_index hydf = Some st /\
     (forall k, ilookup k (fst st) = ilookup k (v1_load order)) /\
@@ -42,7 +42,7 @@ Theorem C23_migration_preserves_v1_histories : forall ops cs cfg perm meta order
   (forall f, In f order <-> In f (v1_files folder)) ->
   dry_run cfg = false -> v1_load (v1_files folder) <> [] -> covers perm (v1_load (v1_files folder)) ->
   exists hydf st,
-    migrate cfg perm false folder PreNone = (MS (if delete_old cfg then None else Some folder) (PreFile hydf), PSuccess) /\
+    migrate cfg perm WNoFault folder PreNone = (MS (if delete_old cfg then None else Some folder) (PreFile hydf), PSuccess) /\
     load_index hydf = Some st /\
     (forall k, ilookup k (fst st) = ilookup k (v1_load order)) /\ snd st = meta.
 Proof. exact migration_preserves_v1_histories. Qed.
@@ -57,7 +57,7 @@ Theorem C23_failure_leaves_v1_intact : forall cfg perm wf folder pre st ph,
   migrate cfg perm wf folder pre = (st, ph) ->
   (m_v1 st = Some folder \/ m_v1 st = None) /\
   (m_v1 st = None -> delete_old cfg = true /\ dry_run cfg = false /\ (ph = PSuccess \/ ph = PSkippedEmpty)) /\
-  (ph = PSuccess -> wf = false /\
+  (ph = PSuccess -> wf = WNoFault /\
      (verify cfg = true -> exists ix, mig_load (v1_files folder) = MLOk ix /\ verify_ok (m_hyd st) ix = true)) /\
   (ph = PFailVerify -> m_hyd st = PreNone) /\
   (ph = PFailLoad \/ ph = PDryRun \/ ph = PSkippedEmpty -> m_hyd st = pre).
@@ -78,7 +78,7 @@ Print Assumptions C23_verify_is_weak.
    blocks survive; a file shorter than its header is harmless (next theorem). *)
 Theorem C23_preexisting_hyd_refuted :
   exists pre st,
-    migrate (CFG false true true) [1; 3] false ex_folder (PreFile pre) = (st, PSuccess) /\
+    migrate (CFG false true true) [1; 3] WNoFault ex_folder (PreFile pre) = (st, PSuccess) /\
     m_v1 st = None /\
     ilookup 2 (v1_load (v1_files ex_folder)) = None /\
     option_map (fun s => (ilookup 2 (fst s), snd s)) (match hyd_img (m_hyd st) with Some f => load_index f | None => None end)
@@ -100,7 +100,7 @@ Print Assumptions C23_short_target_harmless.
 (* same finding, second shape: a target with a complete but corrupt block stays unreadable after the
    append; without --verify the run succeeds and --delete-old removes the V1 data *)
 Theorem C23_corrupt_target_refuted :
-  exists st, migrate (CFG false false true) [1; 3] false ex_folder (PreFile (FTorn 9 [])) = (st, PSuccess) /\
+  exists st, migrate (CFG false false true) [1; 3] WNoFault ex_folder (PreFile (FTorn 9 [])) = (st, PSuccess) /\
              m_v1 st = None /\ (match hyd_img (m_hyd st) with Some f => load_index f | None => None end) = None.
 Proof. exact corrupt_target_refuted. Qed.
 Print Assumptions C23_corrupt_target_refuted.
